@@ -290,3 +290,24 @@ def c02_matchers(v, text="", ode=None, ref=None, code=None, **kw):
         if root in ref.assigns and inverse_trig_of_constant(ref, root):
             return "C02-inverse-trig-of-constant-rewritten-with-cancellation"
     return None
+
+
+@matcher("C17")
+def c17_matchers(v, text="", base_text="", **kw):
+    d = v.get("detail", {})
+    kind, place, cls = v.get("kind"), d.get("placement"), d.get("class")
+    exc = d.get("exc") or d.get("err") or ""
+    if cls == "bare_hash" and (kind in ("edit_makes_load_fail", "membership_changed", "layout_changed", "code_changed")):
+        return "C17-bare-hash-swallows-the-next-line"
+    if place == "after_expressions_header" and kind == "edit_makes_load_fail" and "UnexpectedToken" in exc:
+        return "C17-comment-after-expressions-header-is-a-syntax-error"
+    if place == "inside_named_block":
+        if kind == "edit_makes_load_fail" and "StateNotFoundInComponent" in exc and "component ''" in exc:
+            return "C17-comment-line-inside-named-block-ends-the-block"
+        if kind in ("membership_changed", "code_changed", "layout_changed"):
+            moved = d.get("moved") or {}
+            if kind != "membership_changed" or all(list(b) == [""] for a, b in moved.values()):
+                return "C17-comment-line-inside-named-block-ends-the-block"
+    if kind == "exceeds_progress_bound" and place == "trailing_assignment" and "**" in (d.get("comment") or ""):
+        return "C17-power-tower-in-trailing-comment-is-evaluated-by-pint"
+    return None
